@@ -58,26 +58,28 @@ type pair struct {
 }
 
 type hist struct {
-	r        *core.Run
-	id       string
-	rng      *rand.Rand
-	n        *core.Node
-	users    []*core.Account
-	dep      *core.Account
-	fresh    []*core.Account
-	pairs    []*pair
-	holders  []common.Address
-	blocked  []sdk.AccAddress
-	allowed  sdk.AccAddress // module account that may receive (distribution)
-	clk      time.Time
-	ops      []string
-	modOn    bool
-	sendOff  map[string]bool
-	ended    bool
-	freeCoin string
-	offSteps int
-	touched  []*pair // pairs whose token or coins the current step could have moved
-	okCount  map[string]int
+	bonus     common.Address // the over-delivering token (external pair "bonus")
+	forcePair *pair          // when set, conversions are generated for this pair
+	r         *core.Run
+	id        string
+	rng       *rand.Rand
+	n         *core.Node
+	users     []*core.Account
+	dep       *core.Account
+	fresh     []*core.Account
+	pairs     []*pair
+	holders   []common.Address
+	blocked   []sdk.AccAddress
+	allowed   sdk.AccAddress // module account that may receive (distribution)
+	clk       time.Time
+	ops       []string
+	modOn     bool
+	sendOff   map[string]bool
+	ended     bool
+	freeCoin  string
+	offSteps  int
+	touched   []*pair // pairs whose token or coins the current step could have moved
+	okCount   map[string]int
 }
 
 // okFloors: a run in which one kind of conversion never succeeded has not
@@ -244,6 +246,20 @@ func newHist(r *core.Run, id string) *hist {
 		if err := regERC("honest", "honest", hon); err != nil {
 			return err
 		}
+		// a token that is honest while its bonus is 0 and over-delivers on every transfer once the owner sets one
+		bon, err := n.DeployRuntime(h.dep.Eth, core.BonusToken())
+		if err != nil {
+			return err
+		}
+		for _, u := range h.users {
+			if err := ac.Call(n, core.ERC20ABI, h.dep.Eth, bon, "mint", u.Eth, big.NewInt(2_000_000)); err != nil {
+				return err
+			}
+		}
+		if err := regERC("bonus", "bonus", bon); err != nil {
+			return err
+		}
+		h.bonus = bon
 		if err := regERC("direct", "direct", dir); err != nil {
 			return err
 		}
@@ -328,6 +344,9 @@ func newHist(r *core.Run, id string) *hist {
 }
 
 func (h *hist) pickPair() *pair {
+	if h.forcePair != nil {
+		return h.forcePair
+	}
 	tot := 0
 	for _, p := range h.pairs {
 		tot += p.Weight
@@ -539,6 +558,59 @@ func (c *conv) expect(bal, sup, erc ac.Delta) {
 
 func (h *hist) pick(n int) int { return h.rng.Intn(n) }
 
+// opSetBonus: the owner of the bonus token switches its over-delivery on or off (a token that changes behaviour after
+// it was listed).
+func (h *hist) opSetBonus() {
+	if h.bonus == (common.Address{}) {
+		return
+	}
+	v := []int64{0, 0, 1, 7, 1000}[h.pick(5)]
+	data := append([]byte{0x0b, 0x0b, 0x0b, 0x0b}, common.LeftPadBytes(big.NewInt(v).Bytes(), 32)...)
+	if _, err := h.n.App.AggregateKeeper.CallEVMWithData(h.n.Ctx(), h.dep.Eth, &h.bonus, data); err != nil {
+		return
+	}
+	h.ops = append(h.ops, fmt.Sprintf("bonus token: bonus=%d", v))
+	h.r.Count(fmt.Sprintf("bonus_token_set_to/%d", v), 1)
+}
+
+// bonusProbe: tokens of the bonus pair are converted into vouchers while the token behaves (the module's escrow builds
+// up), the owner then switches the bonus on, and vouchers are converted back - the step in which an over-delivering
+// token pays out more than was asked for unless the conversion notices.
+func (h *hist) bonusProbe() {
+	var bp *pair
+	for _, p := range h.pairs {
+		if p.Name == "bonus" {
+			bp = p
+		}
+	}
+	if bp == nil || h.ended {
+		return
+	}
+	set := func(v int64) {
+		data := append([]byte{0x0b, 0x0b, 0x0b, 0x0b}, common.LeftPadBytes(big.NewInt(v).Bytes(), 32)...)
+		if _, err := h.n.App.AggregateKeeper.CallEVMWithData(h.n.Ctx(), h.dep.Eth, &h.bonus, data); err == nil {
+			h.ops = append(h.ops, fmt.Sprintf("bonus token: bonus=%d", v))
+		}
+	}
+	h.forcePair = bp
+	defer func() { h.forcePair = nil }()
+	set(0)
+	h.opConvert("erc20")
+	h.invariants(h.touched)
+	if h.ended {
+		return
+	}
+	set([]int64{1, 5, 250}[h.pick(3)])
+	h.r.Count("bonus_probes", 1)
+	for i := 0; i < 2 && !h.ended; i++ {
+		h.opConvert("coin")
+		h.invariants(h.touched)
+	}
+	if h.pick(2) == 0 {
+		set(0)
+	}
+}
+
 func (h *hist) step() {
 	w := h.pick(100)
 	if !h.modOn {
@@ -560,8 +632,14 @@ func (h *hist) step() {
 		h.opToggleModule()
 	case w < 89:
 		h.opToggleSend()
-	case w < 93:
+	case w < 92:
 		h.opERC20Transfer()
+	case w < 93:
+		if h.pick(2) == 0 {
+			h.opSetBonus()
+		} else {
+			h.bonusProbe()
+		}
 	case w < 96:
 		h.opBankSend()
 	default:
